@@ -88,7 +88,7 @@ CHECKS["C19"] = ("rsx", "source-level symbolic execution (rsx + z3) of the objec
          "DESIGN.md 0.8", True)
 
 CHECKS["C18"] = ("rsx", "source-level symbolic execution (rsx + z3) of get_object, copy_object, delete_object, put_object, upload_part, upload_part_copy, complete_multipart_upload, abort_multipart_upload and verify_upload_id of s3s-fs with Range::check, on the file-system effect-trace model of C19: ranged reads with symbolic 64-bit object length and Range value against the RFC 9110 slice (linear integer arithmetic), multipart ownership (no effect before verify_upload_id answered true; its verdict == stored key equals caller's), assembly order of completed uploads, side files following the object, no fs::copy onto itself, list_objects_v2 + normalize_path on a bounded symbolic directory tree (names, prefix and marker symbolic, key order an uninterpreted total order); every finding confirmed on the real backend (fixed mini-scenarios + the solver's range witnesses); random operation histories against an in-memory object store as validation",
-         "for every object length below 2^63 and every Range value the parser can produce: refusal, seek position, streamed length, Content-Length and Content-Range are exactly the RFC 9110 slice's and nothing panics; on every path of the four upload-driving operations no file-system effect precedes an approving ownership check; every successful completion concatenates parts 1..n in order; every successful object write leaves the user-metadata file equal to this write's metadata; for every directory tree of up to 4 files in 2 levels the listing is exactly the keys with the prefix after the marker, ascending, each once; the mutating effects of put / copy / delete are exactly the store transition's and reads have none; 40 (thorough: 1500) histories x 80 operations agree with the in-memory model",
+         "for every object length below 2^63 and every Range value the parser can produce: refusal, seek position, streamed length, Content-Length and Content-Range are exactly the RFC 9110 slice's and nothing panics; on every path of the four upload-driving operations no file-system effect precedes an approving ownership check; every successful completion concatenates parts 1..n in order; every successful object write leaves the user-metadata file equal to this write's metadata; for every directory tree of up to 4 files in 2 levels and every flat directory of up to 4 (thorough: 6) files the listing is exactly the keys with the prefix after the marker, ascending, each once; the mutating effects of put / copy / delete are exactly the store transition's and reads have none; 40 (thorough: 1500) histories x 80 operations agree with the in-memory model",
          "claimed for these parts only: listings beyond the tree bound or with a custom delimiter, bucket operations and whole histories are NOT decided symbolically and are covered by the native history family alone; the prefix test is an uninterpreted predicate shared by code and reference; last-modified times and stored checksums are outside; a suffix range of an empty object is left open (RFC 9110 and S3 disagree); the file system is the effect-trace model of C19 (assumptions in the evidence)",
          "DESIGN.md 0.8", True)
 
